@@ -76,10 +76,23 @@ bool prop_C05(Tape& t, Report& rep)
     for (int si = 0; si < nsearch; ++si)
     {
         gen::Root root;
+        bool sparse = false;
         if (t.chance(1, 6))
         {
             root.start = root.cur = explosive(t, rep);
             root.kind = "explosive";
+        }
+        else if (t.chance(1, 3))
+        {
+            // sparse endings: captures inside quiescence reach draws by material / repetition, the places where a
+            // principal variation is stitched together from partial lines
+            for (int k = 0; k < 4; ++k)
+            {
+                root.start = root.cur = gen::gen_fen(t, &rep, t.flag() ? 0 : 1);
+                if (!ref::legal_moves(root.cur).empty()) break;
+            }
+            root.kind = "sparse";
+            sparse = true;
         }
         else
             root = root_with_moves(t, rep, 60);
@@ -91,10 +104,11 @@ bool prop_C05(Tape& t, Report& rep)
         plan.cap = CAP;
         plan.nodes_per_ms = 1 + t.choose(2000);
         std::string faults;
-        int kind = t.weighted({4, 2, 3, 2, 3});
+        int kind = sparse ? 0 : t.weighted({4, 2, 3, 2, 3});
+        if (sparse) rep.cls("c05:sparse_endgame_deeper_search");
         switch (kind)
         {
-        case 0: lim.depth = 1 + int(t.choose(g_tier ? 6 : 4)); break;
+        case 0: lim.depth = sparse ? 3 + int(t.choose(g_tier ? 4 : 3)) : 1 + int(t.choose(g_tier ? 6 : 4)); break;
         case 1: lim.nodes = 1 + int64_t(t.choose(50000)); break;
         case 2:
         {
@@ -117,7 +131,7 @@ bool prop_C05(Tape& t, Report& rep)
         std::vector<std::string> subset;
         if (t.chance(1, 4)) set_searchmoves(t, pos, legal, lim, subset);
         // fault (a): stop after exactly k node visits
-        if (lim.infinite || t.chance(1, 2))
+        if (lim.infinite || (!sparse && t.chance(1, 2)))
         {
             uint64_t k = t.chance(1, 2) ? 1 + t.choose(40) : 1 + t.choose(6000);
             plan.stop_at = k;
@@ -125,7 +139,7 @@ bool prop_C05(Tape& t, Report& rep)
         }
         // fault (b): poison the table at the keys of the root, its children and grandchildren
         int poisoned = 0;
-        if (t.chance(1, 3))
+        if (!sparse && t.chance(1, 3))
         {
             int np = 1 + int(t.choose(12));
             for (int i = 0; i < np; ++i)
@@ -315,6 +329,51 @@ ref::Pos mate_in_one_root(Tape& t, Report& rep, bool& found)
     return last;
 }
 
+// Forcing lines against a boxed-in king: the defender's king sits behind its pawns with a back-rank rook that can be
+// captured with check and a piece that can only interpose; the attacker has a knight or queen for a forcing first check.
+// The shape in which quiescence meets "in check, only interpositions" nodes and real / false mates are close together.
+ref::Pos forcing_back_rank(Tape& t, Report& rep)
+{
+    for (int attempt = 0; attempt < 8; ++attempt)
+    {
+        ref::Pos p;
+        bool w = !t.flag();  // attacker = side to move
+        p.wtm = w;
+        auto put = [&](char c, bool white, int f, int relRank) {
+            int r = w ? relRank : 7 - relRank;
+            if (!ref::on_board(f, r) || p.b[ref::SQ(f, r)] != '.') return false;
+            p.b[ref::SQ(f, r)] = white ? char(std::toupper(c)) : c;
+            return true;
+        };
+        // defender (relative ranks from the attacker's side: 7 = defender's back rank)
+        int kf = t.flag() ? 6 + int(t.choose(2)) : int(t.choose(2));  // g/h or a/b file
+        put('k', !w, kf, 7);
+        for (int f = std::max(0, kf - 1); f <= std::min(7, kf + 1); ++f)
+            if (!t.chance(1, 5)) put('p', !w, f, 6);
+        int rf = kf >= 4 ? 1 + int(t.choose(4)) : 3 + int(t.choose(4));
+        put('r', !w, rf, 7);  // the rook that can be taken with check
+        // an interposer: bishop / knight / queen / rook somewhere it may reach the back rank
+        for (int i = 0, n = 1 + int(t.choose(2)); i < n; ++i) put("bnqrb"[t.choose(5)], !w, int(t.choose(8)), 3 + int(t.choose(4)));
+        // attacker: heavy piece on the rook's file, a knight / queen near the king, king at home
+        put(t.flag() ? 'r' : 'q', w, rf, int(t.choose(4)));
+        put('n', w, std::min(7, std::max(0, kf + (kf >= 4 ? -1 - int(t.choose(3)) : 1 + int(t.choose(3))))), 4 + int(t.choose(2)));
+        if (t.flag()) put('q', w, int(t.choose(8)), 1 + int(t.choose(4)));
+        if (t.flag()) put('p', w, std::min(7, std::max(0, kf + (kf >= 4 ? -2 : 2))), 5);  // a pawn wedge next to the king
+        put('k', w, kf >= 4 ? 6 : 1, 0);
+        for (int f = 5; f < 8; ++f)
+            if (t.flag()) put('p', w, kf >= 4 ? f : 7 - f, 1);
+        gen::choose_clocks(t, p);
+        if (p.half >= 100) p.half = 99;
+        gen::enforce_material(p);
+        gen::repair_not_to_move_check(p);
+        if (!ref::domain_violation(p).empty()) continue;
+        if (ref::legal_moves(p).empty()) continue;
+        rep.cls("c08:forcing_back_rank_constructed");
+        return p;
+    }
+    return gen::theme_checks(t, &rep);
+}
+
 bool prop_C08(Tape& t, Report& rep)
 {
     br::init_engine();
@@ -330,7 +389,12 @@ bool prop_C08(Tape& t, Report& rep)
         std::string kind;
         int mode = t.weighted({4, 2, 2, 4, 1});
         if (si > 0 && t.chance(1, 3)) mode = 5;  // search the same root again at another depth on the used table
-        if (mode == 0)
+        if (mode == 0 && t.chance(1, 3))
+        {
+            root = forcing_back_rank(t, rep);
+            kind = "forcing_back_rank";
+        }
+        else if (mode == 0)
         {
             bool found;
             root = mate_in_one_root(t, rep, found);
